@@ -107,8 +107,12 @@ def _guarded_edge(P, R):
     vis_chk = [c for c in d.calls() if c.name.endswith("HashSet::contains") and c.bb in d.normal_blocks()]
     push = [c for c in d.calls() if c.name.endswith("VecDeque::push_back") and c.bb in d.normal_blocks()]
     start = [c for c in push if fmt_sym(d.sym_operand(c.args[1]), maxdepth=4) == "from_module"]
-    guarded_push = [c for c in push if c not in start and any(isinstance(g["polarity"], bool) and "HashSet::contains(" in A.norm_bool(g["cond"], g["polarity"])[0] and A.norm_bool(g["cond"], g["polarity"])[1] is False for g in A.guards_of(d, c.bb))]
-    if walks and start and guarded_push and vis_ins:
+    def _fresh(g):
+        a, v = A.norm_bool(g["cond"], g["polarity"])
+        # `!visited.contains(x)` or `visited.insert(x)` (true exactly when x was not there yet)
+        return ("HashSet::contains(" in a and v is False) or ("HashSet::insert(" in a and v is True)
+    guarded_push = [c for c in push if c not in start and any(isinstance(g["polarity"], bool) and _fresh(g) for g in A.guards_of(d, c.bb))]
+    if walks and start and guarded_push and (vis_ins or vis_chk):
         R.hold("a", "detect_cycle walks import_graph from `from`, enqueueing only unvisited modules (terminates)", fn=d)
     else:
         R.violate("a", "cycle-walk", "detect_cycle is not a visited-set walk of import_graph starting at from_module (graph reads=%d, start=%d, guarded enqueues=%d)" % (len(walks), len(start), len(guarded_push)), d)
@@ -128,7 +132,7 @@ def _guarded_edge(P, R):
                 c = strip(d.sym_switch(b))
                 if c[0] == "discr" and strip(c[1])[0] == "call" and strip(c[1])[3] == drv.get("call_bb"):
                     continue        # the driver's own None edge
-            r = d.reach(t, avoid_blocks=[lp["header"]])
+            r = A.reach_bool(d, t, avoid_blocks=[lp["header"]])
             outer_headers = [l2["header"] for l2 in d.loops() if l2 is not lp and lp["body"] < l2["body"]]
             if any(ob in r for ob in ok_blocks) or any(h in r for h in outer_headers):
                 early.append((drv["kind"], d.term(b)[0]))
